@@ -67,6 +67,21 @@ Proof.
   split; [split; [exact w_doc_wf|apply leaves_trace_flush_spec; exact w_readd_trace]|exact w_readd_boundary].
 Qed.
 
+(* (viii) crash inside BulkRemoveRecord after its undo was appended and before summary.remove_records, with a pending
+   calc delta on the removed row: the flush appends the restoring update of a row that is gone, the replay fails its
+   assert, the rollback raises and the whole bundle stays applied.  One step later the bundle is reverted. *)
+Theorem C04_refuted_remove_before_summary_mark :
+  wf w_doc /\ (exists st cur done,
+    run_until_crash w_ord (init_state w_doc []) w_remove_calc 9 = Crashed st cur done /\
+    reverted w_ord w_doc w_remove_calc 9 st = None) /\
+  leaves_trace_flush w_ord w_doc w_remove_calc 10 = false.
+Proof.
+  split; [exact w_doc_wf|]. split; [|exact w_remove_after_mark_no_trace].
+  pose proof w_remove_before_mark_raises as H. unfold reverted.
+  destruct (run_until_crash w_ord (init_state w_doc []) w_remove_calc 9) as [st cur done|]; [|contradiction].
+  destruct H as [_ H]. apply bool_decide_eq_true in H. eauto.
+Qed.
+
 Theorem C04_rollback_statement_is_false : ~ C04_rollback_statement.
 Proof.
   intros H. destruct C04_refuted_midaction as (Hw & st & cur & done & Hrun & Hne).
